@@ -257,6 +257,10 @@ def layered_graph(draw, Lmax=6, wmax=4, cstyle=None, id_scheme=None, charged=Non
             opics = []
             for _ in range(nops):
                 opics.append([syms[draw(st.integers(0, len(syms) - 1))], draw(coeff_strategy(cstyle))])
+            if nops == 2 and opics[0][0] != opics[1][0] and draw(st.sampled_from([False, False, True])):
+                # a multi-operator edge whose leading term (smallest operator id) has coefficient exactly one: the configuration
+                # in which "skip the scaling by a unit coefficient" shortcuts hand out the caller's operator matrix itself
+                opics[0 if opics[0][0] < opics[1][0] else 1][1] = 1.0
             eid = ecount if eid_scheme == 'seq' else (100 + 2 * ecount if eid_scheme == 'offset' else -(ecount + 1))
             edges.append([eid, node_ids[l][a], node_ids[l + 1][b], opics])
             ecount += 1
